@@ -1,5 +1,13 @@
-(** C01 — the lowering fc performs (ir_factory.fo, expr_to_go.fo, stmt_to_go.fo) as a function
-    [compile_prog : MiniFo.prog -> MiniGo.gprog].  Types are erased.
+(** C01 / C17 — the lowering fc performs (ir_factory.fo, expr_to_go.fo, stmt_to_go.fo) as a function
+    [compile_prog : MiniFo.prog -> MiniGo.gprog], and the lowering of the bootstrap transpiler tinyfo
+    (tinyfo/ast.go) as [compile_tiny].  Types are erased.
+
+    The two lowerings have the same shape; they differ in two places, selected by the [dialect]:
+    - tinyfo emits [frt.Destr] where fc emits [frt.Destr2] (LetDestVarDef.ToGo vs ldvdToGo);
+    - tinyfo's MatchExpr.ToGoReturn takes a fresh [_vN] for EVERY union match (and only writes it when a
+      payload is bound), fc's umrToGoReturn only when a payload is bound; moreover tinyfo's counter is shared
+      with the type-parameter names [_TN] it allocates while PARSING ([=]/[<>]: one, [|>]: two) and is never
+      reset, so its first temporary is [_v(N+1)] where N is the number of those allocations in the file.
 
     [k] is the value of fc's global counter [uniqueId] (wrapper.go) before the construct is emitted:
     the type switch of a union match that binds at least one payload is [switch _v<k+1> := (e).(type)],
@@ -10,52 +18,71 @@ From FoVerif Require Import Core.Common Core.Lib Core.MiniFo Core.MiniGo.
 Import ListNotations.
 Open Scope list_scope.
 
+Inductive dialect := DFc | DTiny.
+
 Definition arm_has_var (a:string * option var * block) : bool :=
   match a with (_, Some _, _) => true | _ => false end.
 (** umrHasCaseVar *)
 Definition has_case_var (arms:list (string * option var * block)) : bool := existsb arm_has_var arms.
 
-Fixpoint nv (e:expr) : nat :=
-  let fix nvl (es:list expr) : nat :=
-      match es with [] => 0 | e :: r => nv e + nvl r end in
-  let fix nva (arms:list (string * option var * block)) : nat :=
-      match arms with [] => 0 | (_, _, b) :: r => nvb b + nva r end in
-  let fix nvs (arms:list (string * block)) : nat :=
-      match arms with [] => 0 | (_, b) :: r => nvb b + nvs r end in
-  match e with
-  | EInt _ | EStr _ | EBool _ | EUnit | EVar _ | EInterp _ => 0
-  | EBin _ a b | EEq _ a b => nv a + nv b
-  | ENot a => nv a
-  | EIf c bt bf => nv c + nvb bt + nvb bf
-  | EIfOnly c bt => nv c + nvb bt
-  | ELam _ b => nvb b
-  | ECall _ _ _ args | EExt _ args | ETuple args | ERecord _ _ args | ESlice args => nvl args
-  | EPipeVar a _ _ => nv a
-  | EPipeCall a _ args _ | EPipeExt a _ args _ => nv a + nvl args
-  | EField a _ => nv a
-  | ECtor _ _ None => 0
-  | ECtor _ _ (Some a) => nv a
-  | EMatchU a _ arms def =>
-      (if has_case_var arms then 1 else 0) + nv a + nva arms
-      + match def with Some b => nvb b | None => 0 end
-  | EMatchS a arms _ last => nv a + nvs arms + nvb last
-  | EBlock b => nvb b
-  end
-with nvb (b:block) : nat :=
-  match b with
-  | BLet _ e b' | BDestr _ e b' | BDo e b' => nv e + nvb b'
-  | BRet e _ => nv e
+(** temporaries consumed by one union match *)
+Definition match_tmps (d:dialect) (arms:list (string * option var * block)) : nat :=
+  match d with
+  | DFc => if has_case_var arms then 1 else 0
+  | DTiny => 1
   end.
 
-Fixpoint nvl (es:list expr) : nat :=
-  match es with [] => 0 | e :: r => nv e + nvl r end.
-Fixpoint nva (arms:list (string * option var * block)) : nat :=
-  match arms with [] => 0 | (_, _, b) :: r => nvb b + nva r end.
-Fixpoint nvs (arms:list (string * block)) : nat :=
-  match arms with [] => 0 | (_, b) :: r => nvb b + nvs r end.
+Fixpoint nv (d:dialect) (e:expr) : nat :=
+  let fix nvl (es:list expr) : nat :=
+      match es with [] => 0 | e :: r => nv d e + nvl r end in
+  let fix nva (arms:list (string * option var * block)) : nat :=
+      match arms with [] => 0 | (_, _, b) :: r => nvb d b + nva r end in
+  let fix nvs (arms:list (string * block)) : nat :=
+      match arms with [] => 0 | (_, b) :: r => nvb d b + nvs r end in
+  match e with
+  | EInt _ | EStr _ | EBool _ | EUnit | EVar _ | EInterp _ => 0
+  | EBin _ a b | EEq _ a b => nv d a + nv d b
+  | ENot a => nv d a
+  | EIf c bt bf => nv d c + nvb d bt + nvb d bf
+  | EIfOnly c bt => nv d c + nvb d bt
+  | ELam _ b => nvb d b
+  | ECall _ _ _ args | EExt _ args | ETuple args | ERecord _ _ args | ESlice args => nvl args
+  | EPipeVar a _ _ => nv d a
+  | EPipeCall a _ args _ | EPipeExt a _ args _ => nv d a + nvl args
+  | EField a _ => nv d a
+  | ECtor _ _ None => 0
+  | ECtor _ _ (Some a) => nv d a
+  | EMatchU a _ arms def =>
+      match_tmps d arms + nv d a + nva arms
+      + match def with Some b => nvb d b | None => 0 end
+  | EMatchS a arms _ last => nv d a + nvs arms + nvb d last
+  | EBlock b => nvb d b
+  end
+with nvb (d:dialect) (b:block) : nat :=
+  match b with
+  | BLet _ e b' | BDestr _ e b' | BDo e b' => nv d e + nvb d b'
+  | BRet e _ => nv d e
+  end.
+
+(** ([d] is kept outside the [fix] so that these are convertible with the local functions above) *)
+Definition nvl (d:dialect) : list expr -> nat :=
+  fix nvl (es:list expr) : nat :=
+    match es with [] => 0 | e :: r => nv d e + nvl r end.
+Definition nva (d:dialect) : list (string * option var * block) -> nat :=
+  fix nva (arms:list (string * option var * block)) : nat :=
+    match arms with [] => 0 | (_, _, b) :: r => nvb d b + nva r end.
+Definition nvs (d:dialect) : list (string * block) -> nat :=
+  fix nvs (arms:list (string * block)) : nat :=
+    match arms with [] => 0 | (_, b) :: r => nvb d b + nvs r end.
 
 Definition tuple_fn (n:nat) : libfn := match n with 2 => LNewTuple2 | _ => LNewTuple3 end.
-Definition destr_fn (n:nat) : libfn := match n with 2 => LDestr2 | _ => LDestr3 end.
+(** ldvdToGo: frt.Destr<len>; tinyfo's LetDestVarDef.ToGo: frt.Destr (pairs only; for three names, which
+    tinyfo rejects, the model keeps fc's function so that [compile] is total) *)
+Definition destr_fn (d:dialect) (n:nat) : libfn :=
+  match n with
+  | 2 => match d with DFc => LDestr2 | DTiny => LDestr end
+  | _ => LDestr3
+  end.
 
 (** "return e" unless the type is unit (buildReturn, fcPartialApplyGo) *)
 Definition ret_stmt (u:bool) (e:gexpr) : gstmt := if u then GSExpr e else GSReturn e.
@@ -82,20 +109,20 @@ Definition case_header (tmp:var) (bx:option var) : list gstmt :=
 
 Definition pipe_fn (u:bool) : libfn := if u then LPipeUnit else LPipe.
 
-Fixpoint compile (k:nat) (e:expr) {struct e} : gexpr :=
+Fixpoint compile (d:dialect) (k:nat) (e:expr) {struct e} : gexpr :=
   let fix cl (k:nat) (es:list expr) {struct es} : list gexpr :=
-      match es with [] => [] | e :: r => compile k e :: cl (k + nv e) r end in
+      match es with [] => [] | e :: r => compile d k e :: cl (k + nv d e) r end in
   let fix ca (uname:string) (tmp:var) (k:nat) (arms:list (string * option var * block)) {struct arms}
       : list (string * list gstmt) :=
       match arms with
       | [] => []
       | (c, bx, b) :: r =>
-          (case_struct uname c, case_header tmp bx ++ compile_block k b) :: ca uname tmp (k + nvb b) r
+          (case_struct uname c, case_header tmp bx ++ compile_block d k b) :: ca uname tmp (k + nvb d b) r
       end in
   let fix cs (k:nat) (arms:list (string * block)) {struct arms} : list (string * list gstmt) :=
       match arms with
       | [] => []
-      | (l, b) :: r => (l, compile_block k b) :: cs (k + nvb b) r
+      | (l, b) :: r => (l, compile_block d k b) :: cs (k + nvb d b) r
       end in
   match e with
   | EInt z => GInt z
@@ -103,126 +130,142 @@ Fixpoint compile (k:nat) (e:expr) {struct e} : gexpr :=
   | EBool b => GBool b
   | EUnit => GNone
   | EVar x => GVar x
-  | EBin op a b => GBin op (compile k a) (compile (k + nv a) b)                           (* binOpToGo *)
+  | EBin op a b => GBin op (compile d k a) (compile d (k + nv d a) b)                     (* binOpToGo *)
   | EEq neg a b =>                                                                        (* newEqNeq *)
-      GCall (GLib (if neg then LOpNotEqual else LOpEqual)) [compile k a; compile (k + nv a) b]
-  | ENot a => GCall (GLib LOpNot) [compile k a]                                           (* newUnaryNotCall *)
+      GCall (GLib (if neg then LOpNotEqual else LOpEqual)) [compile d k a; compile d (k + nv d a) b]
+  | ENot a => GCall (GLib LOpNot) [compile d k a]                                         (* newUnaryNotCall *)
   | EIf c bt bf =>                                                                        (* newIfElseCall, lbToGo *)
       GCall (GLib (if block_unit bt then LIfElseUnit else LIfElse))
-            [compile k c; GFunc [] (compile_block (k + nv c) bt);
-             GFunc [] (compile_block (k + nv c + nvb bt) bf)]
+            [compile d k c; GFunc [] (compile_block d (k + nv d c) bt);
+             GFunc [] (compile_block d (k + nv d c + nvb d bt) bf)]
   | EIfOnly c bt =>                                                                       (* newIfOnlyCall *)
-      GCall (GLib LIfOnly) [compile k c; GFunc [] (compile_block (k + nv c) bt)]
-  | ELam ps b => GFunc ps (compile_block k b)                                             (* lambdaToGo *)
+      GCall (GLib LIfOnly) [compile d k c; GFunc [] (compile_block d (k + nv d c) bt)]
+  | ELam ps b => GFunc ps (compile_block d k b)                                           (* lambdaToGo *)
   | ECall f O _ args => GCall (GVar f) (cl k args)                                        (* fcFullApplyGo *)
   | ECall f (S m) u args =>                                                               (* fcPartialApplyGo *)
       let rs := rnames (S m) 0 in
       GFunc rs [ret_stmt u (GCall (GVar f) (cl k args ++ map GVar rs))]
   | EExt fn args => GCall (GLib fn) (cl k args)
-  | EPipeVar a f u => GCall (GLib (pipe_fn u)) [compile k a; GVar f]                      (* newPipeCall *)
+  | EPipeVar a f u => GCall (GLib (pipe_fn u)) [compile d k a; GVar f]                    (* newPipeCall *)
   | EPipeCall a f args u =>
       let rs := rnames 1 0 in
       GCall (GLib (pipe_fn u))
-            [compile k a; GFunc rs [ret_stmt u (GCall (GVar f) (cl (k + nv a) args ++ map GVar rs))]]
+            [compile d k a; GFunc rs [ret_stmt u (GCall (GVar f) (cl (k + nv d a) args ++ map GVar rs))]]
   | EPipeExt a fn args u =>
       let rs := rnames 1 0 in
       GCall (GLib (pipe_fn u))
-            [compile k a;
+            [compile d k a;
              match args with
              | [] => GLib fn
-             | _ => GFunc rs [ret_stmt u (GCall (GLib fn) (cl (k + nv a) args ++ map GVar rs))]
+             | _ => GFunc rs [ret_stmt u (GCall (GLib fn) (cl (k + nv d a) args ++ map GVar rs))]
              end]
   | ETuple es => GCall (GLib (tuple_fn (List.length es))) (cl k es)                       (* tupleToGo *)
   | ERecord name fields es => GStructLit name (combine fields (cl k es))                  (* rgToGo *)
-  | EField a f => GSel (compile k a) f                                                    (* faToGo *)
+  | EField a f => GSel (compile d k a) f                                                  (* faToGo *)
   | ECtor u c None => GVar (ctor_name u c)
-  | ECtor u c (Some a) => GCall (GVar (ctor_name u c)) [compile k a]
+  | ECtor u c (Some a) => GCall (GVar (ctor_name u c)) [compile d k a]
   | EMatchU a uname arms def =>                                                           (* meToGo: wrapFunCall *)
-      let hv := has_case_var arms in
       let tmp := vname (S k) in
-      let k0 := if hv then S k else k in
+      let k0 := k + match_tmps d arms in
       GCall (GFunc []
-        [GSTypeSwitch (if hv then Some tmp else None) (compile k0 a)
-           (ca uname tmp (k0 + nv a) arms)
+        [GSTypeSwitch (if has_case_var arms then Some tmp else None) (compile d k0 a)
+           (ca uname tmp (k0 + nv d a) arms)
            (match def with
-            | Some b => compile_block (k0 + nv a + nva arms) b
+            | Some b => compile_block d (k0 + nv d a + nva d arms) b
             | None => [GSPanic panic_msg]
             end)]) []
   | EMatchS a arms bx last =>
       GCall (GFunc []
-        [GSSwitch bx (compile k a) (cs (k + nv a) arms) (compile_block (k + nv a + nvs arms) last)]) []
+        [GSSwitch bx (compile d k a) (cs (k + nv d a) arms) (compile_block d (k + nv d a + nvs d arms) last)]) []
   | ESlice es => GSliceLit (cl k es)                                                      (* sliceToGo *)
   | EInterp parts => GCall (GLib LSInterP) (GStr (interp_fmt parts) :: interp_args parts) (* sinterpToGo *)
-  | EBlock b => GCall (GFunc [] (compile_block k b)) []                                   (* blockToGo *)
+  | EBlock b => GCall (GFunc [] (compile_block d k b)) []                                 (* blockToGo *)
   end
 (** blockToGoReturn / buildReturn *)
-with compile_block (k:nat) (b:block) {struct b} : list gstmt :=
+with compile_block (d:dialect) (k:nat) (b:block) {struct b} : list gstmt :=
   match b with
-  | BLet x e b' => GSDefine [x] (compile k e) :: compile_block (k + nv e) b'               (* lvdToGo *)
+  | BLet x e b' => GSDefine [x] (compile d k e) :: compile_block d (k + nv d e) b'        (* lvdToGo *)
   | BDestr xs e b' =>                                                                     (* ldvdToGo *)
-      GSDefine xs (GCall (GLib (destr_fn (List.length xs))) [compile k e]) :: compile_block (k + nv e) b'
-  | BDo e b' => GSExpr (compile k e) :: compile_block (k + nv e) b'
+      GSDefine xs (GCall (GLib (destr_fn d (List.length xs))) [compile d k e]) :: compile_block d (k + nv d e) b'
+  | BDo e b' => GSExpr (compile d k e) :: compile_block d (k + nv d e) b'
   | BRet e u =>
       let fix ca (uname:string) (tmp:var) (k:nat) (arms:list (string * option var * block)) {struct arms}
           : list (string * list gstmt) :=
           match arms with
           | [] => []
           | (c, bx, b) :: r =>
-              (case_struct uname c, case_header tmp bx ++ compile_block k b) :: ca uname tmp (k + nvb b) r
+              (case_struct uname c, case_header tmp bx ++ compile_block d k b) :: ca uname tmp (k + nvb d b) r
           end in
       let fix cs (k:nat) (arms:list (string * block)) {struct arms} : list (string * list gstmt) :=
           match arms with
           | [] => []
-          | (l, b) :: r => (l, compile_block k b) :: cs (k + nvb b) r
+          | (l, b) :: r => (l, compile_block d k b) :: cs (k + nvb d b) r
           end in
       match e with
       | EMatchU a uname arms def =>                                                       (* umrToGoReturn *)
-          let hv := has_case_var arms in
           let tmp := vname (S k) in
-          let k0 := if hv then S k else k in
-          [GSTypeSwitch (if hv then Some tmp else None) (compile k0 a)
-             (ca uname tmp (k0 + nv a) arms)
+          let k0 := k + match_tmps d arms in
+          [GSTypeSwitch (if has_case_var arms then Some tmp else None) (compile d k0 a)
+             (ca uname tmp (k0 + nv d a) arms)
              (match def with
-              | Some b => compile_block (k0 + nv a + nva arms) b
+              | Some b => compile_block d (k0 + nv d a + nva d arms) b
               | None => [GSPanic panic_msg]
               end)]
       | EMatchS a arms bx last =>                                                         (* smrToGoReturn *)
-          [GSSwitch bx (compile k a) (cs (k + nv a) arms) (compile_block (k + nv a + nvs arms) last)]
-      | EBlock b' => compile_block k b'
+          [GSSwitch bx (compile d k a) (cs (k + nv d a) arms) (compile_block d (k + nv d a + nvs d arms) last)]
+      | EBlock b' => compile_block d k b'
       | EUnit => if u then [] else [GSReturn GNone]
-      | _ => [ret_stmt u (compile k e)]
+      | _ => [ret_stmt u (compile d k e)]
       end
   end.
 
 (** the list functions, at top level (convertible with the local ones above) *)
-Fixpoint compile_list (k:nat) (es:list expr) {struct es} : list gexpr :=
-  match es with [] => [] | e :: r => compile k e :: compile_list (k + nv e) r end.
-Fixpoint compile_arms (uname:string) (tmp:var) (k:nat) (arms:list (string * option var * block)) {struct arms}
-  : list (string * list gstmt) :=
-  match arms with
-  | [] => []
-  | (c, bx, b) :: r =>
-      (case_struct uname c, case_header tmp bx ++ compile_block k b) :: compile_arms uname tmp (k + nvb b) r
-  end.
-Fixpoint compile_sarms (k:nat) (arms:list (string * block)) {struct arms} : list (string * list gstmt) :=
-  match arms with
-  | [] => []
-  | (l, b) :: r => (l, compile_block k b) :: compile_sarms (k + nvb b) r
-  end.
+Definition compile_list (d:dialect) : nat -> list expr -> list gexpr :=
+  fix cl (k:nat) (es:list expr) {struct es} : list gexpr :=
+    match es with [] => [] | e :: r => compile d k e :: cl (k + nv d e) r end.
+Definition compile_arms (d:dialect) : string -> var -> nat -> list (string * option var * block) -> list (string * list gstmt) :=
+  fix ca (uname:string) (tmp:var) (k:nat) (arms:list (string * option var * block)) {struct arms}
+    : list (string * list gstmt) :=
+    match arms with
+    | [] => []
+    | (c, bx, b) :: r =>
+        (case_struct uname c, case_header tmp bx ++ compile_block d k b) :: ca uname tmp (k + nvb d b) r
+    end.
+Definition compile_sarms (d:dialect) : nat -> list (string * block) -> list (string * list gstmt) :=
+  fix cs (k:nat) (arms:list (string * block)) {struct arms} : list (string * list gstmt) :=
+    match arms with
+    | [] => []
+    | (l, b) :: r => (l, compile_block d k b) :: cs (k + nvb d b) r
+    end.
+
+Lemma compile_list_nil d k : compile_list d k [] = [].
+Proof. reflexivity. Qed.
+Lemma compile_list_cons d k e es : compile_list d k (e :: es) = compile d k e :: compile_list d (k + nv d e) es.
+Proof. reflexivity. Qed.
+Lemma compile_arms_nil d u tmp k : compile_arms d u tmp k [] = [].
+Proof. reflexivity. Qed.
+Lemma compile_arms_cons d u tmp k c bx b r :
+  compile_arms d u tmp k ((c, bx, b) :: r) =
+  (case_struct u c, case_header tmp bx ++ compile_block d k b) :: compile_arms d u tmp (k + nvb d b) r.
+Proof. reflexivity. Qed.
+Lemma compile_sarms_nil d k : compile_sarms d k [] = [].
+Proof. reflexivity. Qed.
+Lemma compile_sarms_cons d k l b r :
+  compile_sarms d k ((l, b) :: r) = (l, compile_block d k b) :: compile_sarms d (k + nvb d b) r.
+Proof. reflexivity. Qed.
 
 (** the switch statements, shared by expression position (wrapped) and return position *)
-Definition switch_u (k:nat) (a:expr) (uname:string) (arms:list (string * option var * block)) (def:option block) : gstmt :=
-  let hv := has_case_var arms in
+Definition switch_u (d:dialect) (k:nat) (a:expr) (uname:string) (arms:list (string * option var * block)) (def:option block) : gstmt :=
   let tmp := vname (S k) in
-  let k0 := if hv then S k else k in
-  GSTypeSwitch (if hv then Some tmp else None) (compile k0 a)
-    (compile_arms uname tmp (k0 + nv a) arms)
+  let k0 := k + match_tmps d arms in
+  GSTypeSwitch (if has_case_var arms then Some tmp else None) (compile d k0 a)
+    (compile_arms d uname tmp (k0 + nv d a) arms)
     (match def with
-     | Some b => compile_block (k0 + nv a + nva arms) b
+     | Some b => compile_block d (k0 + nv d a + nva d arms) b
      | None => [GSPanic panic_msg]
      end).
-Definition switch_s (k:nat) (a:expr) (arms:list (string * block)) (bx:option var) (last:block) : gstmt :=
-  GSSwitch bx (compile k a) (compile_sarms (k + nv a) arms) (compile_block (k + nv a + nvs arms) last).
+Definition switch_s (d:dialect) (k:nat) (a:expr) (arms:list (string * block)) (bx:option var) (last:block) : gstmt :=
+  GSSwitch bx (compile d k a) (compile_sarms d (k + nv d a) arms) (compile_block d (k + nv d a + nvs d arms) last).
 
 (** *** declarations *)
 Definition ctor_funcs_of (u:udecl) : list (var * (list var * list gstmt)) :=
@@ -236,15 +279,20 @@ Definition ctor_vars_of (u:udecl) : list (var * gexpr) :=
               if snd c then [] else [(ctor_name (fst u) (fst c), GStructLit (case_struct (fst u) (fst c)) [])])
            (snd u).
 
-Fixpoint compile_funs (k:nat) (fs:list (var * (list var * block))) : list (var * (list var * list gstmt)) :=
+Fixpoint compile_funs (d:dialect) (k:nat) (fs:list (var * (list var * block))) : list (var * (list var * list gstmt)) :=
   match fs with
   | [] => []
-  | (f, (ps, b)) :: r => (f, (ps, compile_block k b)) :: compile_funs (k + nvb b) r
+  | (f, (ps, b)) :: r => (f, (ps, compile_block d k b)) :: compile_funs d (k + nvb d b) r
   end.
-Fixpoint nvfuns (fs:list (var * (list var * block))) : nat :=
-  match fs with [] => 0 | (_, (_, b)) :: r => nvb b + nvfuns r end.
+Fixpoint nvfuns (d:dialect) (fs:list (var * (list var * block))) : nat :=
+  match fs with [] => 0 | (_, (_, b)) :: r => nvb d b + nvfuns d r end.
 
-Definition compile_prog (p:prog) : gprog := {|
-  g_funcs := flat_map ctor_funcs_of (p_unions p) ++ compile_funs 0 (p_funs p);
+(** [start]: value of the temporary counter when emission begins *)
+Definition compile_prog_d (d:dialect) (start:nat) (p:prog) : gprog := {|
+  g_funcs := flat_map ctor_funcs_of (p_unions p) ++ compile_funs d start (p_funs p);
   g_vars := flat_map ctor_vars_of (p_unions p);
-  g_main := compile_block (nvfuns (p_funs p)) (p_main p) |}.
+  g_main := compile_block d (start + nvfuns d (p_funs p)) (p_main p) |}.
+
+(** fc *)
+Definition compile_prog (p:prog) : gprog := compile_prog_d DFc 0 p.
+
